@@ -99,6 +99,25 @@ def _solve_one(idx):
                 res["disagree"] = True
         except Exception as e:
             res["detail"] += f" cvc5 failed: {e}"
+    if res["status"] == "unknown" and _CFG.get("instantiate", True):
+        # third / fourth attempt: explicit ground instantiation of the quantified hypotheses (sound for unsat)
+        try:
+            from . import inst
+            qf, n_inst, nested = inst.instantiate(forms)
+            if n_inst:
+                s2 = z3.Solver()
+                s2.set("timeout", int(timeout * 1000))
+                for f in qf:
+                    s2.add(f)
+                r2 = s2.check()
+                if r2 == z3.unsat:
+                    res.update(status="unsat", solver=f"z3-5.1 (after {n_inst} ground instances)")
+                elif _CFG.get("cvc5", True):
+                    c2, err = _run_cvc5(s2.to_smt2(), timeout)
+                    if c2 == "unsat":
+                        res.update(status="unsat", solver=f"cvc5-1.0.3 (after {n_inst} ground instances)")
+        except Exception as e:
+            res["detail"] += f" instantiation failed: {e}"
     res["time"] = round(time.time() - t0, 3)
     res["strings"] = strings
     return res
